@@ -514,12 +514,12 @@ def lookupAttr (c : ECtx) (v : Val) (n : Str) : EM Val :=
     match lookupAssoc c.repeats k with
     | some r => repItemAttr r n.toString
     | none => emUnsupported "stale repeat item"
-  | .errorInfo cls value line col =>
+  | .errorInfo cls value pos =>
     match n.toString with
     | "type" => pure (.excClass cls)
     | "value" => pure (.excValue cls value)
-    | "lineno" => pure (.int line)
-    | "offset" => pure (.int col)
+    | "lineno" => pure (match pos with | some p => .int p.1 | none => .none)
+    | "offset" => pure (match pos with | some p => .int p.2 | none => .none)
     | _ => emUnsupported "ErrorInfo attribute"
   | .none | .bool _ | .int _ | .cint _ =>
     if startsWith n (lit "__") then emUnsupported "dunder attribute"
